@@ -87,6 +87,24 @@ func checkC10(r *harness.Run) harness.Coverage {
 		})
 	}
 	run(ar4, univ.Js(`{"a":1}`))
+	// (1b) a well-typed call followed by an ill-typed call of the same function in ONE expression
+	// (validation memoised per interpreter on a too coarse key must not let the second call through)
+	good := map[string][]string{"abs": {"`1`"}, "ceil": {"`1`"}, "floor": {"`1`"}, "avg": {"`[1]`"}, "sum": {"`[1]`"}, "contains": {"`[1]`", "`1`"}, "starts_with": {"`\"a\"`", "`\"a\"`"},
+		"ends_with": {"`\"a\"`", "`\"a\"`"}, "join": {"`\"a\"`", "`[\"a\"]`"}, "keys": {"`{\"a\":1}`"}, "values": {"`{\"a\":1}`"}, "length": {"`[1]`"}, "map": {"&a", "`[1]`"}, "max": {"`[1]`"}, "min": {"`[1]`"},
+		"max_by": {"`[1]`", "&@"}, "min_by": {"`[1]`", "&@"}, "sort": {"`[1]`"}, "sort_by": {"`[1]`", "&@"}, "merge": {"`{}`", "`{\"a\":1}`"}, "reverse": {"`[1]`"}}
+	var seqExprs []exprCase
+	for name, g := range good {
+		goodCall := name + "(" + strings.Join(g, ", ") + ")"
+		tuples(len(lits), len(g), func(ix []int) {
+			args := make([]string, len(g))
+			for i, k := range ix {
+				args[i] = lits[k]
+			}
+			other := name + "(" + strings.Join(args, ", ") + ")"
+			seqExprs = append(seqExprs, exprFromText("["+goodCall+", "+other+"]"), exprFromText("["+goodCall+", "+goodCall+", "+other+"][2]"))
+		})
+	}
+	run(seqExprs, univ.Js(`{"a":1}`))
 	// (2) through document fields: every pattern of field / expref positions
 	fields := []string{"a", "b", "c"}
 	vals := univ.Js(u11...)
